@@ -829,6 +829,21 @@ func (d *Driver) nextRaw() Event {
 				}
 			}
 			return Event{Kind: "Renew", Creator: cr, Provider: pv, Owner: m.Owner, Signer: m.Owner, Datas: datas, Dur: dur, Timeout: d.pickI(d.P.Timeouts)}
+		case "RenewByLastUpdater":
+			// a read-write grantee whose update is the model's latest order asks for the renewal himself
+			var cands []PMeta
+			for _, m := range d.St.Metas {
+				if o := d.findOrder(m.Order); o != nil && o.Owner != m.Owner {
+					cands = append(cands, m)
+				}
+			}
+			if len(cands) == 0 {
+				continue
+			}
+			m := cands[d.R.Intn(len(cands))]
+			g := d.findOrder(m.Order).Owner
+			cr, pv := d.gatewayFor(d.R)
+			return Event{Kind: "Renew", Creator: cr, Provider: pv, Owner: g, Signer: g, Datas: []string{m.Data}, Dur: d.pickI(d.P.Durs), Timeout: d.pickI(d.P.Timeouts)}
 		case "Migrate":
 			var cands []PShard
 			for _, s := range d.St.Shards {
